@@ -59,6 +59,31 @@ def generate(g, tier):
         t3 = text + '\n' + planted
         cases.append(dict(op='compile', src=dict(text=t3), meta=dict(family='before-failure', errprints=exp[2], returns=it.ended_by_return)))
     r = g.r
+    # the print log of a compilation holds ITS prints: the same Compiler object (or a new one) used before for programs that printed and
+    # then failed, or printed and succeeded, or failed inside an imported file
+    STALE = ['PRINT stale\n$STRING 1/0', 'PRINT stale1\nPRINT stale2\nGUI toolong', 'PRINT fine\nSTRING a', 'FUNC f\n    PRINT deep\n    RUN f\nRUN f',
+             'REPEAT i,3\n    $PRINT "it "+i\nVAR 1x 2', 'PRINT only']
+    for k in range(count(tier, 60, 500)):
+        ag = AstGen(g.r, W, 3)
+        body, _ = ag.program(g.r.randint(3, 10))
+        text, rd = render_ast(body, '    ')
+        it = Interp(rd.line_of, None)
+        exp = it.program(body)
+        if exp[0] != 'ok': continue
+        key = r.choice(['k', 'k', None])
+        steps = []
+        for j in range(r.randint(1, 3)):
+            if g.chance(0.25):
+                steps.append(dict(op='compile_file', compiler=key, dir=f's{j}', file='proj/main.txt',
+                                  files={'proj/main.txt': 'PRINT importer\nSTART lib\nPRINT never', 'proj/lib.txt': 'PRINT in-lib\n' + r.choice(['GUI toolong', '  STRING misindented', 'STRING fine'])}))
+            else:
+                steps.append(dict(op='compile', compiler=key, dir=f's{j}', src=dict(text=r.choice(STALE))))
+        if g.chance(0.5) or it.ended_by_return:
+            steps.append(dict(op='compile', compiler=key, dir='last', src=dict(text=text)))
+            cases.append(dict(op='history', steps=steps, meta=dict(family='prints-after-others', exp_last=list(exp[:4]), nocorr=True)))
+        else:
+            steps.append(dict(op='compile', compiler=key, dir='last', src=dict(text=text + '\n$STRING 1/0')))
+            cases.append(dict(op='history', steps=steps, meta=dict(family='prints-after-others', errprints_last=exp[2], nocorr=True)))
     for _ in range(count(tier, 100, 600)):
         # grouped and empty prints, inside a function called in a loop
         lines = ['FUNC show p', '    $PRINT p', '    PRINT', '        one', '        two', '    $PRINT', '        ""', '        "x"+p',
@@ -82,6 +107,21 @@ def oracle(cases, results):
     fs = ast_oracle(cases, results, ('out', 'prints', 'vars'), 'prints')
     for i, (c, r) in enumerate(zip(cases, results)):
         m = c.get('meta', {})
+        if c.get('op') == 'history' and r.get('kind') != 'hang':
+            if r.get('kind') != 'history' or not r.get('results'):
+                fs.append(fail(i, f'history did not run: {str(r)[:200]}', 'prints-after-others:broken')); continue
+            last = r['results'][-1]
+            if 'exp_last' in m:
+                if last.get('kind') != 'ok':
+                    fs.append(fail(i, f'the last compilation of the history should succeed: {last.get("kind")} {last.get("cls", last.get("exc"))}', 'prints-after-others:kind')); continue
+                got = [p[:2] for p in (last.get('prints') or [])]
+                if got != [list(p[:2]) for p in m['exp_last'][2]] or last.get('out') != m['exp_last'][1]:
+                    fs.append(fail(i, f'after other compilations the print log / output of a program is not its own: prints expected {m["exp_last"][2][:5]} got {(last.get("prints") or [])[:5]}', 'prints-after-others:prints'))
+            else:
+                got = [p[:2] for p in (last.get('prints') or [])]
+                if last.get('kind') != 'cerr' or got != [list(p[:2]) for p in m['errprints_last']]:
+                    fs.append(fail(i, f'after other compilations the prints reported with a failure are not that compilation\'s own: expected {m["errprints_last"][:5]} got {last.get("kind")} {(last.get("prints") or [])[:5]}', 'prints-after-others:errprints'))
+            continue
         if 'errprints' in m and r.get('kind') != 'hang':
             if m.get('returns'): continue
             if r.get('kind') == 'crash':
